@@ -199,6 +199,17 @@ var propSpecs = []PropSpec{
 				cfg.Preempt = 2
 			}
 		}},
+	{ID: "C04", Pkgs: []string{"itertool"},
+		BoundsQ:     "11 constructs (Split, Buffer, ParallelBuffer, Map, GenerateParallel, MergeIterators, Chain, MergeSlices, MergeSliceIterators, dt.Map and adt.Map iterators) x <=2 items x every cut point x {exhaust, Close (twice), cancel, Close then cancel}; a consumer parked in ReadOne released by Close/cancel from another goroutine (4 constructs); Split(2) with one output abandoned and the other closed; preemption bound 1",
+		BoundsT:     "<=3 items; preemption bound 2",
+		Outside:     "ProcessParallel as a Worker (returns only after its workers, see C01/C03); BufferedChannel (a Go channel has no Close for the consumer; covered in C02 with exhaustion); more items/workers/preemptions; 'promptly' = at quiescence",
+		Assumptions: commonAssumptions,
+		Tune: func(cfg *Config, tier, entry string) {
+			cfg.Preempt = 1
+			if tier == "thorough" {
+				cfg.Preempt = 2
+			}
+		}},
 	{ID: "TV", Pkgs: []string{"internal"}, BoundsQ: "translator validation corpus"},
 }
 
